@@ -187,6 +187,18 @@ def Enf.observe (e0 : Enf) (ev : Raw) : Except Breach Enf :=
   | .streamStart => .ok e
   | .streamEnd => .ok e
 
+/-- `observe_alias_to_be_replayed`: the event and the alias are counted, the key/value bookkeeping is left
+to the replayed node -/
+def Enf.observeAliasReplayed (e0 : Enf) : Except Breach Enf :=
+  let e := { e0 with report := { e0.report with events := e0.report.events + 1 } }
+  if e.report.events > e.lim.maxEvents then .error (.events e.report.events) else
+  let a := e.report.aliases + 1
+  if a > e.lim.maxAliases then .error (.aliases a)
+  else .ok { e with report := { e.report with aliases := a } }
+
+/-- `alias_occupies_position` -/
+def Enf.aliasOccupiesPosition (e : Enf) : Enf := { e with containers := handleAlias e.containers }
+
 /-- `finalize`: the report and the ratio breach, if any -/
 def Enf.finalize (e : Enf) : Report × Option Breach :=
   let r := { e.report with anchors := e.defined.length }
